@@ -152,8 +152,10 @@ def gen_builtin_scn(rng, extreme=False) -> ch.Scn:
     dims = rng.choice([1, 2, 2, 3])
     names = ["HaltonSampler"] + [rng.choice(BUILTINS) for _ in range(rng.randint(1, 4))]
     if extreme:
-        names = ["HaltonSampler", "XGBoostSampler", rng.choice(BUILTINS), "XGBoostSampler"]
+        # surrogates other than XGBoost may legitimately refuse +-1e40 targets (sklearn raises); they are not the subject here
+        names = ["HaltonSampler", "XGBoostSampler", rng.choice(["HaltonSampler", "RandomUniformSampler", "RSequenceSampler", "BestBatchSampler", "XGBoostSampler"]), "XGBoostSampler"]
     lineup = [(nm, rng.randint(2, 4) if nm != "CORSSampler" else rng.randint(2, 3), None, rng.choice([None, 5])) for nm in names]
+    lineup[0] = ("HaltonSampler", 4, None, lineup[0][3])     # best-batch needs at least batch_size existing points
     return ch.Scn(ensemble=rng.randint(1, 3), simlen=dims + 3, dims=dims, seed=rng.randrange(10 ** 5), lineup=lineup,
                   bounds=(tuple(0.0 for _ in range(dims)), tuple(1.0 for _ in range(dims))), precision=tuple(0.01 for _ in range(dims)),
                   loss_fn="extreme" if extreme else rng.choice(["sum", "dist", "ties"]),
@@ -198,6 +200,9 @@ def run(chk: Check):
             chk.fail("history (built-in samplers): " + e, {"case": scn_json(scn)})
         if info["rec"].get("_conflicts"):
             chk.fail("a sampler returned different batches for the same call index", {"case": scn_json(scn)})
+        if any(l.startswith("raise:") and l.split(" ")[0] not in ("raise:sampler", "raise:model", "raise:loss") for l in lines):
+            chk.count("skipped:third_party_exception_inside_a_sampler")   # outside the model's fault plan; the oracle above still ran
+            continue
         ok, k, a, b = ch.compare(scn, lines, info)
         if not ok:
             chk.disagree("Calibrator (built-in samplers) != BlackIt.Calibrator.calibrate",
